@@ -4,6 +4,7 @@ import (
 	"fmt"
 	"math"
 	"math/rand"
+	"os"
 	"strings"
 
 	. "verif/internal/proto"
@@ -225,6 +226,9 @@ func (c *Ctx) runRefCases(kind string, progs []*zr.Program, inputs []map[string]
 		shape := ""
 		if shapes != nil {
 			shape = shapes[i]
+		}
+		if f := os.Getenv("VERIF_DUMP_SHAPE"); f != "" && strings.Contains(shape, f) { // developer aid
+			fmt.Printf("---- %s [%s] %s\n%sreference: %s display=%q\nobserved: %s display=%q\n", shape, status, diff, srcs[i], outcomeBrief(refs[i]), refs[i].Display, resp.Outcome(), resp.Display)
 		}
 		if status == "skip" {
 			c.Count("skipped_unspecified", 1)
